@@ -76,6 +76,7 @@ def source_guards():
     g["consteval_checks_set_idents"] = has(va, "if self.set_idents.get(s).is_some() || self.expr_level_set_idents.contains(s) { "
                                                "self.bindings.borrow_mut().unbind(s); return Ok(ExprKind::Atom(a)); };")
     g["consteval_static_arity"] = (has(vl, "if l.args.len() != args.len() && !l.rest {")
+                                   and has(vl, "if !f.rest { if !f.args.is_empty() { stop!(ArityMismatch =>")
                                    and has(vl, "stop!(ArityMismatch => m; l.location.span);")
                                    and has(vl, "if l.rest && args.len() < l.args.len().saturating_sub(1) {"))
     return g
@@ -114,6 +115,10 @@ class G:
             return ("quote", [r.randint(0, 9) for _ in range(r.randint(0, 2))])
         return ("quote", r.choice([False, True, 5]))
 
+    @staticmethod
+    def numeric(t):
+        return t[0] == "num"
+
     def effect(self, e):
         return ("begin", [("prim", "display", [("num", self.r.randint(1, 9))]), e])
 
@@ -138,14 +143,17 @@ class G:
             return ("var", r.choice(vs))
         return self.expr(d - 1, env)
 
-    def expr(self, d, env):
+    def expr(self, d, env, tail=False):
+        """env: the variables that hold numbers.  Only numbers reach `+` and the procedure parameter (a type error
+        inside natively compiled code is a separate, JIT-specific, open defect: see the report); lists and booleans
+        are bound to parameters, tested, and returned in tail position."""
         r = self.r
         k = r.random()
         vs = [x for x in env]
         if d <= 0 or k < 0.12:
             if vs and r.random() < 0.65:
                 return ("var", r.choice(vs))
-            return self.const() if r.random() < 0.3 else ("num", r.randint(0, 9))
+            return ("num", r.randint(0, 9))
         if k < 0.24:
             return ("prim", "+", [self.expr(d - 1, env), self.expr(d - 1, env)])
         if k < 0.31:
@@ -155,10 +163,12 @@ class G:
         if k < 0.42:
             return self.effect(self.expr(d - 1, env))
         if k < 0.54:
-            return ("if", self.test(d, env), self.expr(d - 1, env), self.expr(d - 1, env))
+            return ("if", self.test(d, env), self.expr(d - 1, env, tail), self.expr(d - 1, env, tail))
         if k < 0.57:
             x = self.fresh("s")
-            return ("setp", x, self.operand(d, env), self.expr(d - 1, env + [x]))
+            # the assigned value does not read the assigned variable (see the report: reading it from a thunk applied
+            # on the spot is a separate open defect of the boxing analysis)
+            return ("setp", x, self.operand(d, env), self.expr(d - 1, env))
         # an applied lambda
         rest = r.random() < 0.4
         nfix = r.choice([0, 1, 1, 2, 2, 3])
@@ -173,7 +183,12 @@ class G:
             if r.random() < 0.04:
                 nargs = nfix + 1                      # static ArityMismatch
         args = [self.operand(d, env) for _ in range(nargs)]
-        env2 = env + [p for p in ps if r.random() < 0.8]      # sometimes a parameter is never mentioned
+        # numeric parameters may be mentioned (sometimes a parameter is never mentioned)
+        fixed = ps[:-1] if rest else ps
+        env2 = env + [p for p, a in zip(fixed, args) if (self.numeric(a) or a[0] not in ("bool", "quote")) and r.random() < 0.8]
+        if rest and tail and r.random() < 0.45:
+            return ("app", ("lam", ps, rest, ("var", ps[-1]) if r.random() < 0.6 else
+                            ("begin", [("prim", "display", [("num", r.randint(1, 9))]), ("var", ps[-1])])), args)
         if r.random() < 0.35:
             # the body is itself an applied lambda (what flattening looks for)
             nb = r.choice([1, 1, 2])
@@ -182,13 +197,15 @@ class G:
             if rest_b:
                 qs.append(self.fresh("r"))
             ys = [self.operand(d - 1, env2 if r.random() < 0.5 else env) for _ in range(nb + (r.choice([0, 1, 2]) if rest_b else 0))]
-            body = ("app", ("lam", qs, rest_b, self.expr(d - 1, env2 + qs)), ys)
+            qfix = qs[:-1] if rest_b else qs
+            envq = env2 + [q for q, a in zip(qfix, ys) if a[0] not in ("bool", "quote")]
+            body = ("app", ("lam", qs, rest_b, self.expr(d - 1, envq, tail)), ys)
         else:
-            body = self.expr(d - 1, env2)
+            body = self.expr(d - 1, env2, tail)
         return ("app", ("lam", ps, rest, body), args)
 
     def program(self):
-        return self.expr(self.r.choice([2, 3, 3, 4]), ["z"])
+        return self.expr(self.r.choice([2, 3, 3, 4]), ["z"], tail=True)
 
 
 def contains(t, tag):
@@ -372,7 +389,16 @@ class Canon:
         if h == "if":
             return ("if", self.go(x[1], env), self.go(x[2], env), self.go(x[3], env))
         if h == "begin":
-            return ("begin", [self.go(e, env) for e in x[1:]])
+            # nested begins are spliced (flatten_begins_and_expand_defines, compiler.rs L1205/L1265: not modelled,
+            # (begin a (begin b c)) and (begin a b c) are the same sequence)
+            out = []
+            for e in x[1:]:
+                c = self.go(e, env)
+                if c[0] == "begin":
+                    out.extend(c[1])
+                else:
+                    out.append(c)
+            return ("begin", out)
         if h == "set!":
             return ("set", self.go(x[1], env), self.go(x[2], env))
         if isinstance(h, str):
@@ -500,16 +526,23 @@ def run_passes(ck):
     for p in progs:
         body = to_coq(p, bound)
         lam = "(Lam %s false %s)" % (strs(PARAMS), body)
-        exprs.append("(pipeline_str src_guards %s ++ \" @@ \" ++ render_res (eval 60 (ENone, []) ENone (Call %s %s)))%%string"
-                     % (lam, lam, ACTUALS_COQ))
+        exprs.append("(pipeline_str src_guards %s ++ (if static_arity (ceval src_guards %s) then \"\" else \" !SA\") ++ \" @@ \" ++ "
+                     "render_res (eval 60 (ENone, []) ENone (Call %s %s)))%%string" % (lam, lam, lam, ACTUALS_COQ))
     mod = ck.coq_eval(HEADER, exprs, shard=20)
     st = {"compared_ast": 0, "agreed_ast": 0, "skipped_unmodelled": 0, "static_arity": 0, "compared_value": 0, "agreed_value": 0}
     distinct = set()
     for p, d, nm, line, e, m in zip(progs, defs, names, lines, eng, mod):
         ck.cov["evaluations"] += 1
         mast, _, mval = m.partition(" @@ ")
+        if mast.endswith(" !SA"):
+            mast = mast[:-4]
+            if mast != "ARITY":
+                ck.violation("passes: the model constant evaluator leaves an applied lambda with a wrong operand count "
+                             "(hypothesis static_arity of the flatten / plain-let theorems)", {"program": d}, no_input=True, tag="passes-sa")
         case = {"program": d + " (%s %s)" % (nm, ACTUALS_STEEL)}
         kind, v, o = engine_value(e)
+        if e and "err" in e[0]:
+            kind, v = "ERR", e[0]["err"]          # the definition itself was rejected
         if mast == "ARITY":
             # a directly applied lambda with the wrong operand count is a COMPILE-time error (const_evaluation.rs L805-824)
             st["static_arity"] += 1
